@@ -22,6 +22,7 @@ func init() {
 			rulePoolStartsEmpty(c, "R2")
 			ruleCaptureDiscipline(c, "R3")
 			ruleBacktrackUndo(c, "R4")
+			ruleReadersWriteNothing(c, "R5", "context")
 		},
 	})
 }
